@@ -57,3 +57,8 @@ claim("C17", "PBT (rapid): metamorphic option+alternative-spelling vs. canonical
       "Generated-input search: each query is executed in the variant spelling under the options and in canonical spelling without them; rows must be identical (or both fail); held on everything explored.",
       "Identifier contents exclude the double quote in double-quoted spelling and the backtick always, and never end in a backslash (escaping there is unspecified).",
       "DESIGN.md 4/C17")
+
+claim("C18", "PBT (rapid): per-function argument generators (scalars of every kind, arrays empty/nested/with NULLs, boundary indexes, unknown names, wrong arities, compositions) vs. reference implementations of the stated contracts; round-trip laws with opaque tokens; direct calls of the exported functions",
+      "Generated-input search through `SELECT f(args) AS v` on two equal rows and through direct calls of the exported Go functions, judged by reference implementations written from the statement; held on everything explored.",
+      "Open finding concat-null (CONCAT prints NULL as <nil>; pinned by the repository's own test) is routed and reported as KNOWN-FINDING; ELEMENTAT on empty arrays and unknown names accept NULL or error.",
+      "DESIGN.md 4/C18")
